@@ -546,7 +546,8 @@ mod inner {
             };
             ArgRangesIter {
                 args: self,
-                cur: 0,
+                // a nested group starts inside the scope of the group it belongs to
+                cur: self.scope.start,
                 width,
             }
         }
